@@ -82,6 +82,7 @@ structure Desc where
   netType : NetType
   algo : Algo
   useIdTable : Bool := true
+  addrOffsetBits : Option Nat := none      -- as written in the description
   robIdxBits : Nat := 1
   portIdBits : Nat := 1
   numVcIdBits : Nat := 0
